@@ -101,8 +101,9 @@ type traceRule struct {
 	// compare-and-swap may succeed or fail; used to enumerate the transitions
 	// a function can *attempt* under concurrency.
 	trackAny []string
-	loadSyms bool    // in interference mode, record which value each Load returned ("load:<v>")
-	args     []Value // abstract values bound to the root function's parameters
+	exprVal  func(fr *Frame, e ast.Expr) (Value, bool) // names the values of receives / field reads (tokens)
+	loadSyms bool                                      // in interference mode, record which value each Load returned ("load:<v>")
+	args     []Value                                   // abstract values bound to the root function's parameters
 }
 
 type traceDom struct {
@@ -179,6 +180,12 @@ func (d *traceDom) Call(ip *Interp, fr *Frame, st *State, call *ast.CallExpr, c 
 	}
 	var ev *callEvent
 	if d.r.classify != nil {
+		// the receiver's value, when it is a plain variable, for rules that follow values (tokens)
+		if c.Recv != nil {
+			if _, isId := ast.Unparen(c.Recv).(*ast.Ident); isId {
+				c.RecvVal = ip.pureValue(fr, st, c.Recv)
+			}
+		}
 		ev = d.r.classify(fr, call, c, args)
 	}
 	if isTracked {
@@ -331,6 +338,7 @@ func (d *traceDom) Exit(ip *Interp, fr *Frame, st *State, ret *ast.ReturnStmt, v
 // run walks root with the rule and reports walker problems as undecided.
 func (tr *traceRule) run(root *Func, init kv) *Interp {
 	ip := NewInterp(tr.c.P, &traceDom{r: tr})
+	ip.ExprVal = tr.exprVal
 	if tr.maxDepth > 0 {
 		ip.MaxDepth = tr.maxDepth
 	}
